@@ -90,5 +90,5 @@ def strategy(tier):
     ))
 
 
-PARTS = [Part("service", eval_case, {"quick": 1500, "thorough": 40000}, strategy=strategy, min_nontrivial={"quick": 400, "thorough": 8000})]
+PARTS = [Part("service", eval_case, {"quick": 2400, "thorough": 40000}, strategy=strategy, min_nontrivial={"quick": 400, "thorough": 8000})]
 MIN_SHARE = {"service": {"threshold": 0.05, "both-type-utility": 0.1, "multi-zone": 0.2, "glide-utility": 0.1}}
